@@ -3,7 +3,7 @@ streams (harness arguments per tier) and the classification of each case."""
 
 # Which repairs of the pinned tree the model follows (must match the fix: commits in /repo;
 # known_findings.json records them as `fixed`).
-FIXES = {"f1": False, "f2": False, "f3": False, "f4": False, "f5": False, "f2b": False}
+FIXES = {"f1": True, "f2": True, "f3": True, "f4": True, "f5": True, "f2b": True, "f8": True, "f10": True}
 
 
 def pflags(extra):
@@ -79,6 +79,44 @@ def tok_streams(profile, nq, nt, classify):
     return streams
 
 
+def corpus_classify(line, impl, mobs, extra):
+    flags = pflags(extra)
+    kind = flags.get("KIND", "?")
+    tags = ["kind=" + kind, "impl=" + impl.split()[0 if not impl.startswith("OUT") else 3]]
+    info = {"tags": tags, "nontrivial": impl.startswith("ok ") and not impl.startswith("ok 0") or kind == "tokenizer"}
+    if "panic" in impl.split()[:4]:
+        info["prop_fail"] = "corpus-panic"
+        info["why"] = "Corpus::from_reader panicked"
+    elif flags.get("RT") == "0":
+        # outside the documented format (a parsed feature ending in CR, i.e. a line ending in CR CR LF)
+        # the round trip is not claimed: theorem write_parse_idempotent carries that hypothesis
+        feats_cr = any(t.endswith("0d") for t in impl.split(" REWRITE ")[0].split()[2:])
+        if kind == "tokenizer" or not feats_cr:
+            info["prop_fail"] = "corpus-roundtrip"
+            info["why"] = "re-parsing the written-back corpus does not give the same examples"
+        else:
+            tags.append("excluded=feature-ends-with-CR")
+    return info
+
+
+def rewrite_classify(line, impl, mobs, extra):
+    flags = pflags(extra)
+    nrules = int(line.split(" RULES ")[1].split()[0])
+    tags = ["impl=" + impl.split()[0], "rules=%d" % min(nrules, 5), "sametrie=" + flags.get("SAMETRIE", "?")]
+    info = {"tags": tags, "nontrivial": nrules >= 2 and impl.startswith("some")}
+    if flags.get("C17") == "0":
+        info["prop_fail"] = "rewrite-not-first-match"
+        info["why"] = "the rewriter did not apply the first registered matching rule"
+    return info
+
+
+def simple_streams(name, nq, nt, classify):
+    def streams(tier, seed):
+        n = nq if tier == "quick" else nt
+        return [([name, str(seed), str(n)], classify)]
+    return streams
+
+
 LATTICE_TB = [
     "crawdad trie modelled as: stored keys that are prefixes of the input, increasing length, ids ascending",
     "costs modelled in Int with an explicit no-overflow bound (EnvOK.bound); harness built with overflow checks",
@@ -86,6 +124,58 @@ LATTICE_TB = [
 ]
 
 PROPS = {
+    "C17": {
+        "modules": ["Vibrato.Props.C17"],
+        "theorems": ["Vibrato.C17.rewrite_first_match", "Vibrato.C17.rewrite_first_match_total",
+                     "Vibrato.C17.rewrite_none_iff", "Vibrato.C17.rewriteOrSame_spec", "Vibrato.C17.bad_ref_panics",
+                     "Vibrato.C17.rewrite_terminates", "Vibrato.C17.matches_iff", "Vibrato.C17.pinned_violates",
+                     "Vibrato.C17.pinned_same_trie_partial", "Vibrato.C17.rewrite_some_matching_rule_partial"],
+        "streams": simple_streams("rewrite", 3000, 200000, rewrite_classify),
+        "rule": "random rule lists (0-5 rules, patterns of 0-4 cells mixing *, (a|b), literals, copied prefixes of earlier "
+                "rules so that prefixes interleave) x feature lists of 0-4 cells; first case is the pinned witness; "
+                "non-trivial = >= 2 rules and some rule applied",
+        "trusted_base": ["regex ^\\$([0-9]+)$ and HashSet pattern equality replaced by hand-written scanners in the model"],
+        "assumptions": [],
+    },
+    "C19": {
+        "modules": ["Vibrato.Props.C19"],
+        "theorems": ["Vibrato.Corpus.corpus_roundtrip", "Vibrato.Corpus.corpus_roundtrip_pinned",
+                     "Vibrato.Corpus.empty_sentences_dropped", "Vibrato.Corpus.trailing_tokens_dropped",
+                     "Vibrato.Corpus.parse_result_wellformed", "Vibrato.Corpus.parse_never_panics",
+                     "Vibrato.Corpus.write_parse_idempotent", "Vibrato.Corpus.write_parse_idempotent_of_no_crcrlf",
+                     "Vibrato.Corpus.malformed_line_err", "Vibrato.Corpus.invalid_utf8_err",
+                     "Vibrato.Corpus.mecabOutput_eq_write", "Vibrato.Corpus.tokenizer_output_parses",
+                     "Vibrato.Corpus.tokenizer_outputs_parse"],
+        "streams": simple_streams("corpus", 1000, 30000, corpus_classify),
+        "rule": "three generators: byte soup over a CR/LF/TAB/EOS/UTF-8-edge alphabet (20%), structured corpora with "
+                "varied terminators and rare garbage lines (50%), real tokenizer output rendered as `tokenize -O mecab` "
+                "prints it (30%); non-trivial = at least one example parsed, or a tokenizer case",
+        "trusted_base": ["BufRead::lines and str::split modelled (Model/Corpus.lean), validated differentially",
+                         "the five write_all calls of tokenize/src/main.rs are replicated in the harness (text compared by tools/extract_consts.py)"],
+        "assumptions": ["documented format = lines terminated by LF or CRLF; a line ending in CR CR LF is outside it (explicit hypothesis of write_parse_idempotent)"],
+    },
+    "C01": {
+        "modules": ["Vibrato.Props.C01"],
+        "theorems": ["Vibrato.tokens_segments", "Vibrato.tokenize_total", "Vibrato.tokens_partition",
+                     "Vibrato.cover_no_ignore", "Vibrato.gaps_start_with_space", "Vibrato.tokenize_empty"],
+        "streams": tok_streams("c01", 600, 20000, tok_classifier("C01", has_tokens)),
+        "rule": "random dictionaries (matrix connector, unk.def covering every category) x sentences over a 13-letter "
+                "alphabet with 1..4-byte characters, two SPACE characters, an astral and an out-of-range character "
+                "x all option settings; non-trivial = at least one token reported; distinct = sha1 of the case input",
+        "trusted_base": LATTICE_TB,
+        "assumptions": ["UnkCovered (finding F9) and the 65536-nodes-per-boundary bound (F15) are hypotheses of the theorems"],
+    },
+    "C04": {
+        "modules": ["Vibrato.Props.C04"],
+        "theorems": ["Vibrato.reset_then_tokenize_fresh", "Vibrato.history_independent", "Vibrato.tokenize_idempotent",
+                     "Vibrato.tokenize_twice_doubles", "Vibrato.interleave_independent",
+                     "Vibrato.buildLattice_buffer_indep"],
+        "streams": tok_streams("c04", 300, 10000, tok_classifier("C04", has_tokens)),
+        "rule": "random worker histories (reset incl. empty and shorter-after-longer sentences, repeated tokenize, "
+                "reads before tokenize, lattice dumps, counter ops) on one worker; non-trivial = some read returned tokens",
+        "trusted_base": LATTICE_TB + ["thread scheduling, allocator and AVX2 gathers are outside the model (partial for schedules)"],
+        "assumptions": ["the tokenizer is immutable while workers exist (checked at compile time: Tokenizer/Dictionary are Send+Sync; source audit for interior mutability)"],
+    },
     "C02": {
         "modules": ["Vibrato.Props.C02"],
         "theorems": ["Vibrato.viterbi_optimal", "Vibrato.total_cost_prefix"],
